@@ -138,9 +138,9 @@ CBIN(c_sdiv, _ZNK4crab7domains8constantIN4ikos8z_numberEE4SDivERKS4_, 1, g_y != 
 CBIN(c_srem, _ZNK4crab7domains8constantIN4ikos8z_numberEE4SRemERKS4_, 1, g_y != 0, ZM_rem(g_x, g_y))
 /* bounded cross-check (thorough tier): the same contracts with * / % bit-precise on constants and points below 2^6
  * (ZM_PRECISE): the uninterpreted reading above agrees with the machine operations; NOT counted as proof */
-//@check id=c_mul_precise fn=_ZNK4crab7domains8constantIN4ikos8z_numberEE3MulERKS4_ tag=c_mul harness=h_c_mul props=C08 tier=thorough defs=ZM_PRECISE,ZBITS=6
-//@check id=c_sdiv_precise fn=_ZNK4crab7domains8constantIN4ikos8z_numberEE4SDivERKS4_ tag=c_sdiv harness=h_c_sdiv props=C08 tier=thorough defs=ZM_PRECISE,ZBITS=6
-//@check id=c_srem_precise fn=_ZNK4crab7domains8constantIN4ikos8z_numberEE4SRemERKS4_ tag=c_srem harness=h_c_srem props=C08 tier=thorough defs=ZM_PRECISE,ZBITS=6
+//@check id=c_mul_precise fn=_ZNK4crab7domains8constantIN4ikos8z_numberEE3MulERKS4_ tag=c_mul harness=h_c_mul props=C08 tier=thorough defs=ZM_PRECISE,ZBITS=6 bounded="bit-precise small arithmetic: operands below 2^6 in magnitude only"
+//@check id=c_sdiv_precise fn=_ZNK4crab7domains8constantIN4ikos8z_numberEE4SDivERKS4_ tag=c_sdiv harness=h_c_sdiv props=C08 tier=thorough defs=ZM_PRECISE,ZBITS=6 bounded="bit-precise small arithmetic: operands below 2^6 in magnitude only"
+//@check id=c_srem_precise fn=_ZNK4crab7domains8constantIN4ikos8z_numberEE4SRemERKS4_ tag=c_srem harness=h_c_srem props=C08 tier=thorough defs=ZM_PRECISE,ZBITS=6 bounded="bit-precise small arithmetic: operands below 2^6 in magnitude only"
 
 /* unsigned division / remainder: for every width g_w in which both points are representable */
 #define FITS (fits_w(g_x, g_w) && fits_w(g_y, g_w))
